@@ -291,6 +291,19 @@ impl WalkEntry {
 
     /// Get the name of this entry.
     pub fn file_name(&self) -> &OsStr {
+        // A starting point is named by the last component of its path as given: "." for
+        // "dir/." and ".." for "dir/..", which Path::file_name()/components() normalise away.
+        #[cfg(unix)]
+        if self.depth() == 0 {
+            use std::os::unix::ffi::OsStrExt;
+            let bytes = self.path().as_os_str().as_bytes();
+            let end = bytes.iter().rposition(|&b| b != b'/').map_or(0, |i| i + 1);
+            if end > 0 {
+                let start = bytes[..end].iter().rposition(|&b| b == b'/').map_or(0, |i| i + 1);
+                return OsStr::from_bytes(&bytes[start..end]);
+            }
+        }
+
         match &self.inner {
             Entry::Explicit(path, _) => {
                 // Path::file_name() only works if the last component is normal
